@@ -627,13 +627,28 @@ def lemma_L7(run):
             bad.append(z3.And(ga, gb, before(O, a) == before(E, b_), z3.Not(same(va, vb))))
     q = run.decide('L7/get_legal_moves', pre + [zb(st2.guard), z3.Or(*bad)], kind='smt',
                    note='get_legal_moves keeps exactly the moves is_legal_move accepts, unchanged and in order (list equality, %d result slots)' % len(O))
+    alarms = []
     if q.verdict == 'sat':
         m = q.model
         desc = ['move %d: present=%s legal=%s %s' % (i, m.eval(gs[i], True), m.eval(L[i], True),
                                                        ' '.join('%s=%s' % (t[0], m.eval(t[1], True)) for t in B.ply_terms(plies[i].value())[:8])) for i in range(n)]
-        run.violation('get_legal_moves is not the filter of get_all_moves by is_legal_move\n      ' + '\n      '.join(desc), {'moves': desc})
+        alarms.append(('get_legal_moves is not the filter of get_all_moves by is_legal_move\n      ' + '\n      '.join(desc), {'moves': desc}))
     for ob, qq in run.check_obligations(ex, 'L7', pre=pre):
-        run.violation('L7: get_legal_moves can panic: %s' % ob, {})
+        alarms.append(('L7: get_legal_moves can panic: %s' % ob, {}))
+    if alarms:
+        # The lemma's environment hands out arbitrary moves and arbitrary legality answers.  That fits an implementation that
+        # assembles the list from those two callees; one that decides (part of) legality itself from the board is outside it.
+        # So a model is reported only with a concrete position on which the real get_legal_moves differs from the rules.
+        from . import legalreplay
+        res = legalreplay.battery(run)
+        if isinstance(res, list):
+            rec = dict(res[1])
+            rec['abstract'] = [a[0][:600] for a in alarms]
+            run.violation('%s; on the real engine: %s' % (alarms[0][0].split('\n')[0], res[0]), rec)
+        else:
+            run.inconclusive.append('L7: %s -- not reproduced on %s concrete positions (pins, shared destinations, checks): the lemma\'s environment '
+                                    '(arbitrary moves and legality answers) does not fit how this tree assembles the list; no verdict' % (
+                                        alarms[0][0].split('\n')[0], res.get('positions_compared', '?')))
     run.stubs.add('L7: get_all_moves / is_legal_move replaced by arbitrary results (their exactness is L4-L6)')
     run.absorb(ex)
 
@@ -677,6 +692,9 @@ def check(run, replay=None):
             got = c06.native_slider(run, c['piece'], c['square'], c['occupancy'])
             print('replay %s sq=%d occ=%#x: native=%s reference=%s' % (c['piece'], c['square'], c['occupancy'], got, c['expected']))
             return 1 if got != c['expected'] else 0
+        if c.get('cmd') == 'legalmoves':
+            from . import legalreplay
+            return legalreplay.replay_file(run, c)
         extra = []
         if c['cmd'] == 'moveset':
             extra = [str(c['kind']), str(c['color']), str(c['square'] >> 3), str(c['square'] & 7)]
